@@ -831,6 +831,81 @@ def b15(ctx, rid):
         raise core.AnchorLost('Leaf constructions in src/filter/hierarchical.rs: %d' % n)
 
 
+def b16(ctx, rid):
+    """the offset at which an off-loaded bloom filter is probed in the index file is the offset at which its bytes lie: decided
+    as an equality of affine forms (layout algebra, rules/affine.py) that holds for every size - reader: the offset returned by
+    deserialize_filters equals the start of the slice it hands to Bloom::from_raw (sum of the split_at points before it);
+    writer: the offset returned by serialize_filters equals the total length of what was appended to the buffer before the bloom
+    bytes (a bincode u64 counts 8).  An offset that is short by the length prefix reads the bits 64 positions early: false
+    negatives for every key once the filter is off-loaded."""
+    import affine
+    prog = ctx.prog
+    rd = [f for f in prog.fns.values() if f.id.endswith('::deserialize_filters') and f.file == 'src/blob/index/core.rs']
+    wr = [f for f in prog.fns.values() if f.id.endswith('::serialize_filters') and f.file == 'src/blob/index/core.rs']
+    if not rd or not wr:
+        raise core.AnchorLost('serialize_filters / deserialize_filters')
+    # reader
+    f = rd[0]
+    ev = affine.Eval(prog, f)
+    ev.ext[1] = (affine.const(0), affine.sym('len(buf)'))
+    ev.run()
+    start = None
+    for c in f.calls:
+        if c.name == 'from_raw' and 'filter::bloom::Bloom' in c.path and c.args:
+            e = ev.extent(c.args[0])
+            if e is not None:
+                start = e[0]
+    ret = None
+    for b in f.blocks:
+        for st in b['s']:
+            if st['k'] == 'a' and st['r']['k'] == 'agg' and st['r'].get('ak') == 'tuple' and len(st['r']['ops']) == 3:
+                ret = ev.scalar(st['r']['ops'][2])
+    key = 'bloom-offset|reader'
+    if start is None or ret is None:
+        ctx.ok(rid, key, f.where(), 'not evaluated: the body is not in the straight-line split_at form the layout algebra understands (no verdict)', nontrivial=False)
+        ctx.note('C10.B16 reader side could not be evaluated symbolically')
+    elif affine.norm(start) == affine.norm(ret):
+        ctx.ok(rid, key, f.where(), 'returned offset = start of the bloom slice = %s' % affine.show(ret))
+    else:
+        ctx.bad(rid, key, f.where(), 'deserialize_filters returns the bloom offset `%s` but splits the bloom bytes off at `%s`: the off-loaded filter is probed at the wrong position of the index file (false negatives for stored keys)' % (affine.show(ret), affine.show(start)))
+    # writer
+    f = wr[0]
+    ev = affine.Eval(prog, f)
+    ev.run()
+    pos = affine.const(0)
+    bloom_pos = None
+    for c in sorted([c for c in f.calls if c.bb in f.reachable()], key=lambda c: c.bb):
+        if c.name != 'extend_from_slice' or len(c.args) < 2:
+            continue
+        src = core.origins(f, c.args[1])
+        is_bloom = any(o.kind == 'call' and o.data.name == 'to_raw' and 'bloom' in o.data.path.lower() for o in src)
+        if is_bloom:
+            bloom_pos = pos
+        if any(o.kind == 'call' and o.data.name == 'serialize' and o.data.decl_crate == 'bincode' for o in src):
+            ln = affine.const(8) if 'u64' in ' '.join(o.data.full for o in src if o.kind == 'call') else None
+        else:
+            root = core.access_root(f, op_local(c.args[1])) if op_local(c.args[1]) is not None else None
+            ln = affine.sym('len(_%d)' % root) if root is not None else None
+        if ln is None:
+            bloom_pos = None if bloom_pos is None else bloom_pos
+            pos = None
+            break
+        pos = affine.add(pos, ln)
+    ret = None
+    for b in f.blocks:
+        for st in b['s']:
+            if st['k'] == 'a' and st['r']['k'] == 'agg' and st['r'].get('ak') == 'tuple' and len(st['r']['ops']) == 2:
+                ret = ev.scalar(st['r']['ops'][1])
+    key = 'bloom-offset|writer'
+    if bloom_pos is None or ret is None:
+        ctx.ok(rid, key, f.where(), 'not evaluated: the body is not in the extend_from_slice form the layout algebra understands (no verdict)', nontrivial=False)
+        ctx.note('C10.B16 writer side could not be evaluated symbolically')
+    elif affine.norm(bloom_pos) == affine.norm(ret):
+        ctx.ok(rid, key, f.where(), 'returned offset = bytes appended before the bloom bytes = %s' % affine.show(ret))
+    else:
+        ctx.bad(rid, key, f.where(), 'serialize_filters returns the bloom offset `%s` but appends `%s` bytes before the bloom bytes' % (affine.show(ret), affine.show(bloom_pos)))
+
+
 RULES = [
     Rule('C10.B1', 'every `definitely absent` answer lies in its owner and is controlled by that owner\'s justifying test; defaults are NeedAdditionalCheck', b1, 11),
     Rule('C10.B2', 'filter.add(key) dominates every insertion into the in-memory header map', b2, 2),
@@ -846,5 +921,6 @@ RULES = [
     Rule('C10.B13', 'the candidate iterator never pushes a vacated leaf (its None would end the whole traversal)', b13, 1),
     Rule('C10.B14', 'no decision is carried from a released guard into a later write section of the same filter lock (C08.D7 instances)', b14, 1),
     Rule('C10.B15', 'a child slot of the closed list is only filled in add_child (whose filter merge B4 verifies)', b15, 1),
+    Rule('C10.B16', 'the bloom offset reported by the filter (de)serializer equals the position of the bloom bytes (affine layout algebra)', b16, 2),
     Rule('C10.B9', 'the range merge can extend both bounds in one call', b9, 1),
 ]
